@@ -16,7 +16,10 @@
      set / frozenset of uids = sorted duplicate-free list (the harness sorts).
    * the optional Leaf attributes complex / correlation / ensemble are [option]s because the
      code tests hasattr; [complex] carries its Python class (tuple or list) because the dof
-     code compares it with a tuple and (a, b) == [a, b] is False in Python.
+     code compares it with a tuple and (a, b) == [a, b] is False in Python.  Every reader now
+     builds a tuple (json_format.jason_to_leaf built a list until fix C07-json-complex-list);
+     [CList] is kept so that the harness can still represent, and the comparison detect, a
+     list coming back from the implementation.
    * Node.complex (set on the two Node objects of an intermediate uncertain complex and read
      only by reporting.budget(intermediate=True)) is not modelled. *)
 From Coq Require Import ZArith List Bool String.
@@ -198,7 +201,9 @@ Section Archive.
   Definition new_node (cx : actx) (k : key) (lb : label) (u df : V) : res actx :=
     match assoc (cx_nodes cx) k with
     | Some n =>
-        if label_eqb lb (an_label n) && eqb N u (an_u n) && eqb N df (an_df n)
+        (* df == n.df or (df != df and n.df != n.df): the dof of a zero-uncertainty intermediate is NaN *)
+        if label_eqb lb (an_label n) && eqb N u (an_u n)
+           && (eqb N df (an_df n) || (negb (eqb N df df) && negb (eqb N (an_df n) (an_df n))))
         then Ok cx
         else Err RuntimeError
     | None => Ok (mkCx (cx_leaves cx) (cx_nodes cx ++ [(k, mkAN lb u df)]))
@@ -206,14 +211,28 @@ Section Archive.
 
   Definition or_else {A} (a b : option A) : option A := match a with Some _ => a | None => b end.
 
-  (* one iteration of the first loop of _thaw: reuse-or-create the Leaf, then ASSIGN the three
-     optional attributes the frozen leaf has onto it (a live leaf is overwritten) *)
+  (* l.correlation.setdefault(uid_j, r_j) for every archived entry: the entries the node has win,
+     archived entries it lacks are appended *)
+  Fixpoint corr_merge (c arch : list (key * V)) : list (key * V) :=
+    match arch with
+    | [] => c
+    | (k, v) :: t => corr_merge (match assoc c k with Some _ => c | None => c ++ [(k, v)] end) t
+    end.
+
+  (* one iteration of the first loop of _thaw: reuse-or-create the Leaf, then ASSIGN the optional
+     attributes the frozen leaf has onto it -- except that the correlations of a node that was
+     live already (its uid was registered before the call) are kept and the archived ones MERGED
+     into them (fix: a load no longer erases correlations declared after the dump) *)
   Definition thaw_leaf (cx : actx) (kf : key * aleaf) : res actx :=
     let '(k, fl) := kf in
+    let live := match assoc (cx_leaves cx) k with Some _ => true | None => false end in
     '(cx1, l) <- new_leaf cx k (al_label fl) (al_u fl) (al_df fl) (al_indep fl) ;;
     let l' := mkAL (al_label l) (al_u l) (al_df l) (al_indep l)
                    (or_else (al_cplx fl) (al_cplx l))
-                   (or_else (al_corr fl) (al_corr l))
+                   (match live, al_corr fl, al_corr l with
+                    | true, Some c', Some c => Some (corr_merge c c')
+                    | _, _, _ => or_else (al_corr fl) (al_corr l)
+                    end)
                    (or_else (al_ens fl) (al_ens l)) in
     Ok (mkCx (assoc_set (cx_leaves cx1) k l') (cx_nodes cx1)).
 
@@ -454,7 +473,7 @@ Section Archive.
           ind <- (x <- jfield m "independent" ;; d_bool x) ;;
           cplx <- (match jget m "complex" with
                    | None => Ok None
-                   | Some (JArr (a :: b :: _)) => ka <- d_uid_leaf a ;; kb <- d_uid_leaf b ;; Ok (Some (CList, ka, kb))
+                   | Some (JArr (a :: b :: _)) => ka <- d_uid_leaf a ;; kb <- d_uid_leaf b ;; Ok (Some (CTuple, ka, kb))
                    | Some _ => Err IndexError
                    end) ;;
           corr <- (match jget m "correlation" with
